@@ -32,6 +32,7 @@ import (
 	"os"
 	"os/exec"
 	"path/filepath"
+	"regexp"
 	"sort"
 	"strconv"
 	"strings"
@@ -143,31 +144,82 @@ func loadPB(dir string) *pbInfo {
 	return p
 }
 
-// pure calls that may precede the guard without counting as an effect
-func pureCall(s string) bool {
-	for _, p := range []string{"sdk.UnwrapSDKContext(", "strings.EqualFold(", "strings.ToLower(", "strings.ToUpper("} {
-		if strings.HasPrefix(s, p) {
+// prologue: the ONLY statement shape that may precede the guard without counting as an effect:
+//
+//	<ident> := sdk.UnwrapSDKContext(<ident>)
+//
+// matched exactly (not by prefix: `sdk.UnwrapSDKContext(c).KVStore(..).Set(..)` is an effect).
+func isPrologue(s ast.Stmt) bool {
+	as, ok := s.(*ast.AssignStmt)
+	if !ok || as.Tok != token.DEFINE || len(as.Lhs) != 1 || len(as.Rhs) != 1 {
+		return false
+	}
+	if _, ok := as.Lhs[0].(*ast.Ident); !ok {
+		return false
+	}
+	call, ok := as.Rhs[0].(*ast.CallExpr)
+	if !ok || len(call.Args) != 1 || src(call.Fun) != "sdk.UnwrapSDKContext" {
+		return false
+	}
+	_, ok = call.Args[0].(*ast.Ident)
+	return ok
+}
+
+// recvName: receiver identifier of the handler being analysed
+var recvName = ""
+
+// ownAuthority: e is the RECEIVER keeper's own authority — R.authority, R.GetAuthority(), either followed by
+// .String(), or R.<field>.authority (an unexported field: necessarily a type of the keeper's own package).
+// Another keeper's getter (R.bankKeeper.GetAuthority()), a local, the message itself … are not.
+func ownAuthority(e ast.Expr) bool {
+	if recvName == "" || recvName == "_" {
+		return false
+	}
+	r := regexp.QuoteMeta(recvName)
+	ok, _ := regexp.MatchString(`^`+r+`(\.authority|\.GetAuthority\(\)|\.[A-Za-z_][A-Za-z0-9_]*\.authority)(\.String\(\))?$`, src(e))
+	return ok
+}
+
+// pureArg: an argument of the error constructor in the rejection body: literal, identifier / selector chain
+// without calls, or one of the two compared operands
+func pureArg(e ast.Expr, req string) bool {
+	switch x := e.(type) {
+	case *ast.BasicLit, *ast.Ident:
+		return true
+	case *ast.SelectorExpr:
+		if ownAuthority(e) || mentionsAuthority(e, req) {
 			return true
 		}
-	}
-	// getters on the request / keeper authority
-	if strings.HasSuffix(s, ".GetAuthority()") || strings.HasSuffix(s, ".GetAuthority().String()") || strings.HasSuffix(s, ".GetChainName()") {
-		return true
+		return pureArg(x.X, req)
+	case *ast.CallExpr:
+		return ownAuthority(e) || mentionsAuthority(e, req)
 	}
 	return false
 }
 
-func hasImpureCall(n ast.Node) bool {
-	found := false
-	ast.Inspect(n, func(m ast.Node) bool {
-		if c, ok := m.(*ast.CallExpr); ok {
-			if !pureCall(src(c)) {
-				found = true
-			}
+// rejects: the block is exactly `return nil, <error constructor>(pure args…)` — nothing else may happen in it
+func rejects(b *ast.BlockStmt, req string) bool {
+	if b == nil || len(b.List) != 1 {
+		return false
+	}
+	r, ok := b.List[0].(*ast.ReturnStmt)
+	if !ok || len(r.Results) != 2 || src(r.Results[0]) != "nil" {
+		return false
+	}
+	call, ok := r.Results[1].(*ast.CallExpr)
+	if !ok {
+		return false
+	}
+	sel, ok := call.Fun.(*ast.SelectorExpr)
+	if !ok || (sel.Sel.Name != "Wrapf" && sel.Sel.Name != "Wrap") || !pureArg(sel.X, req) {
+		return false
+	}
+	for _, a := range call.Args {
+		if !pureArg(a, req) {
+			return false
 		}
-		return true
-	})
-	return found
+	}
+	return true
 }
 
 // authField: name of the request field that carries the authority for the handler being analysed
@@ -206,6 +258,18 @@ func guardOf(s ast.Stmt, req string) (kind, against string, ok bool) {
 		}
 		break
 	}
+	// classify: the message's authority on one side; the other side must be the receiver keeper's OWN authority
+	// (or a local variable, which the caller resolves and which makes the guard "not first")
+	classify := func(k string, other ast.Expr) (string, string, bool) {
+		_, isLocal := other.(*ast.Ident)
+		if !(ownAuthority(other) || isLocal) {
+			return "CmpOther", "not the receiver's own authority: " + src(other), true
+		}
+		if !rejects(ifs.Body, req) || ifs.Else != nil {
+			return "CmpOther", "the rejection branch is not exactly `return nil, <error>`: " + src(other), true
+		}
+		return k, src(other), true
+	}
 	switch c := cond.(type) {
 	case *ast.BinaryExpr:
 		var other ast.Expr
@@ -213,13 +277,16 @@ func guardOf(s ast.Stmt, req string) (kind, against string, ok bool) {
 			other = c.Y
 		} else if mentionsAuthority(c.Y, req) {
 			other = c.X
-		} else {
-			return "", "", false
 		}
-		if c.Op == token.NEQ && returnsError(ifs.Body) && ifs.Else == nil {
-			return "CmpNeq", src(other), true
+		if other != nil {
+			if mentionsAuthority(other, req) {
+				return "CmpOther", "the message's authority compared with itself", true
+			}
+			if c.Op != token.NEQ {
+				return "CmpOther", src(other), true
+			}
+			return classify("CmpNeq", other)
 		}
-		return "CmpOther", src(other), true
 	case *ast.UnaryExpr:
 		if c.Op == token.NOT {
 			if call, okc := c.X.(*ast.CallExpr); okc && len(call.Args) == 2 && src(call.Fun) == "strings.EqualFold" {
@@ -228,13 +295,13 @@ func guardOf(s ast.Stmt, req string) (kind, against string, ok bool) {
 					other = call.Args[1]
 				} else if mentionsAuthority(call.Args[1], req) {
 					other = call.Args[0]
-				} else {
-					return "", "", false
 				}
-				if returnsError(ifs.Body) && ifs.Else == nil {
-					return "CmpEqualFold", src(other), true
+				if other != nil {
+					if mentionsAuthority(other, req) {
+						return "CmpOther", "the message's authority compared with itself", true
+					}
+					return classify("CmpEqualFold", other)
 				}
-				return "CmpOther", src(other), true
 			}
 		}
 	}
@@ -283,8 +350,11 @@ func helperGuardOf(s ast.Stmt, req string, af *ast.File) (kind, against string, 
 	}
 	name := sel.Sel.Name
 	// the caller must return the helper's error unconditionally
-	if ifs.Else != nil || src(ifs.Cond) != "err != nil" || !returnsError(ifs.Body) {
+	if ifs.Else != nil || src(ifs.Cond) != "err != nil" || len(ifs.Body.List) != 1 || src(ifs.Body.List[0]) != "return nil, err" {
 		return "CmpOther", name + ": its error is not returned unconditionally (" + src(ifs.Cond) + ")", true
+	}
+	if src(sel.X) != recvName {
+		return "CmpOther", name + ": not a method of the receiver", true
 	}
 	for _, d := range af.Decls {
 		fd, isFd := d.(*ast.FuncDecl)
@@ -312,10 +382,18 @@ func helperGuardOf(s ast.Stmt, req string, af *ast.File) (kind, against string, 
 						other = be.X
 					}
 					if other != nil {
-						if helperReturnsErr(hif.Body) {
-							return "CmpNeq", src(other), true
+						hr := ""
+						if fd.Recv != nil && len(fd.Recv.List) == 1 && len(fd.Recv.List[0].Names) == 1 {
+							hr = fd.Recv.List[0].Names[0].Name
 						}
-						return "CmpOther", name, true
+						saved := recvName
+						recvName = hr
+						own := ownAuthority(other)
+						recvName = saved
+						if own && helperReturnsErr(hif.Body) && len(hif.Body.List) == 1 && hif.Else == nil {
+							return "CmpNeq", strings.Replace(src(other), hr+".", saved+".", 1), true
+						}
+						return "CmpOther", name + ": compares with " + src(other), true
 					}
 				}
 			}
@@ -509,6 +587,10 @@ func main() {
 			die("%s: no proto.RegisterType for %s.%s in %s", rel, pkgName, typeName, ipath)
 		}
 		recv := src(fd.Recv.List[0].Type)
+		recvName = ""
+		if len(fd.Recv.List[0].Names) == 1 {
+			recvName = fd.Recv.List[0].Names[0].Name
+		}
 		r := row{URL: url, File: rel, Recv: recv, Name: fd.Name.Name, Req: pkgName + "." + typeName,
 			GuardIdx: -1, Kind: "CmpNone", NStmts: len(fd.Body.List)}
 		if dn, via, ok := delegateOf(fd.Body, req); ok {
@@ -531,7 +613,7 @@ func main() {
 				if as, ok := s.(*ast.AssignStmt); ok && as.Tok == token.DEFINE && len(as.Lhs) == 1 && len(as.Rhs) == 1 {
 					locals[src(as.Lhs[0])] = as.Rhs[0]
 				}
-				if hasImpureCall(s) {
+				if !isPrologue(s) { // anything but the exact prologue before the guard: an effect, a local, an early return …
 					r.PreEffect = true
 				}
 			}
